@@ -45,7 +45,7 @@ func legendExtrasTerm(txt string) []Term {
 func dumpTrimmed(g *graph.Graph, orig, dn, de int) Term {
 	var nodes []Term
 	for _, n := range g.Nodes {
-		nodes = append(nodes, dumpNode(n))
+		nodes = append(nodes, c04DumpNode(n))
 	}
 	_, es := dumpGraph(g)
 	return L(S("ok"), ZI(orig), ZI(dn), ZI(de), L(nodes...), SetOf(es))
@@ -62,7 +62,7 @@ func withLegend(parsed Term, txt string) Term {
 
 func c05Observe(p *profile.Profile, o c04Opts, form string) (obs Term, order Term) {
 	order = L()
-	obs = guarded(func() Term {
+	obs = c04Guarded(func() Term {
 		rpt, err := o.newReport(p)
 		if err != nil {
 			return c04ErrClass(err)
@@ -81,7 +81,7 @@ func c05Observe(p *profile.Profile, o c04Opts, form string) (obs Term, order Ter
 			g, orig, dn, de := report.VerifC04Trimmed(rpt)
 			var ord []Term
 			for _, n := range g.Nodes {
-				ord = append(ord, dumpInfo(n.Info))
+				ord = append(ord, c04DumpInfo(n.Info))
 			}
 			order = L(ord...)
 			return dumpTrimmed(g, orig, dn, de)
@@ -94,7 +94,7 @@ func c05Observe(p *profile.Profile, o c04Opts, form string) (obs Term, order Ter
 			g, _ := report.GetDOT(rpt2)
 			var ord []Term
 			for _, n := range g.Nodes {
-				ord = append(ord, dumpInfo(n.Info))
+				ord = append(ord, c04DumpInfo(n.Info))
 			}
 			order = L(ord...)
 			txt := c04Generate(rpt)
